@@ -19,6 +19,14 @@ class C05(Machine):
             "extra_plain": rng.choice([0, 0, 1, 2]),
             "completion": rng.choice(["skip_remaining", "skip_each", "minimal_skip", "leave_some"]),
         }
+        if rng.random() < 0.18:
+            # sub-expansion history: root expanded, then a strategy started from a *non-root*
+            # node, then every remaining stub skipped one by one; seeds asked in id order
+            from ..machine import sub_rng
+            from ..netgen import gen_network
+
+            sc["params"].update({"sub": rng.choice(["minimal", "minimal", "bfs", "dfs"]), "strategy": "bfs", "size": rng.choice([1, 2]), "n_each": 0, "extra_plain": 0, "completion": "skip_each", "id_order": True})
+            sc["net"] = gen_network(sub_rng(sc["run_seed"], "net-sub"), {"rings": 3, "modular": 3, "cascade": 1, "sparse": 1}, nmax=self.NMAX.get(sc["tier"], 6), fmts=self.FMTS)
         if rng.random() < 0.5:
             sc["walk_seed"] = rng.randrange(1 << 30)
         if rng.random() < 0.25:
@@ -46,6 +54,14 @@ class C05(Machine):
             ph = "skipping"
         if ph == "skipping":
             stubs = world.stubs()
+            if p.get("sub") and not st.get("sub_done") and stubs:
+                st["sub_done"] = True
+                sp = world.space_of(rng.choice(stubs))
+                if p["sub"] == "minimal":
+                    return {"op": "minimal", "node": sp, "size": None, "skip": False}
+                if p["sub"] == "bfs":
+                    return {"op": "bfs", "node": sp, "level": rng.choice([None, 1]), "size": None}
+                return {"op": "dfs", "node": sp, "stack": None, "size": None}
             if stubs and st["each"] < p["n_each"]:
                 st["each"] += 1
                 return {"op": "skip_to_minimal", "node": world.space_of(rng.choice(stubs))}
@@ -65,6 +81,8 @@ class C05(Machine):
             if st["queue"] is None:
                 q = list(world.node_ids())
                 rng.shuffle(q)
+                if p.get("id_order"):
+                    q = sorted(q, reverse=True)  # popped from the end: node 0 first
                 st["queue"] = [world.space_of(i) for i in q]
                 st["query_started"] = True
             if not st["queue"]:
